@@ -307,7 +307,7 @@ pub fn run(ctx: &Ctx, replay: Option<&serde_json::Value>) {
     }
     ctx.set_rule("datalog::World driven directly: 0-12 facts with arbitrary origin sets over {0,1,2,3,authorizer}, 1-5 rules (owner, arbitrary trusted set; recursion, joins of 1-3 predicates, repeated variables, constants of every type, typed expressions, unbound head variables), three insertion orders; oracle = RefDatalog (both inclusions) + probe query_rule/query_match/query_match_all; non-trivial = (>=2 iterations or a join of >=2 predicates) and something derived and >=2 distinct origin sets in the result; distinct = hash(facts, rules)");
     ctx.assume("typed (total) expressions only; programs on which the reference meets an expression error are excluded and counted");
-    let cases = ctx.tier.pick(60_000, 2_000_000);
+    let cases = ctx.tier.pick(300_000, 2_000_000);
     let cfg = GenCfg {
         allow_unbound_head: true,
         scopes: false,
